@@ -2,7 +2,8 @@
 (* Property monitor for C09 -- "TTL expiry fires exactly once, on time, never early; a refresh
    postpones it".  Alphabet (a TimedStore seen from outside):
 
-     in  ts_refresh a key ttl | ts_stop a key | ts_stopaddr a | ts_stopall | ts_stopmatch keys
+     in  ts_refresh a key ttl nak (nak: callback_new will refuse a NEW entry, as a listener raising NakSubscription does)
+         | ts_stop a key | ts_stopaddr a | ts_stopall | ts_stopmatch keys
      out new a key | gone a key          (callback_new / callback_expired of the store)
      idle, adv d
 
@@ -29,8 +30,9 @@ MonInit(cfg) ==
 Keys(m) == DOMAIN m.pres
 Fail(m, clause) == IF m.bad = "" THEN [m EXCEPT !.bad = clause, !.at = m.n] ELSE m
 
-Refresh(m, k, ttl) ==
-  IF m.pres[k]
+Refresh(m, k, ttl, nak) ==
+  IF ~m.pres[k] /\ nak THEN m          \* refused: never recorded, nothing may ever be reported for it
+  ELSE IF m.pres[k]
   THEN [m EXCEPT !.amb[k] = (m.left[k] = 0) \/ @, !.left[k] = ttl]
   ELSE [m EXCEPT !.pres[k] = TRUE, !.left[k] = ttl, !.oweNew[k] = TRUE]
 
@@ -64,7 +66,7 @@ Known(m, e) == e.a \in Range(m.cfg.addrs) /\ e.key \in Range(m.cfg.keys)
 
 MonStep(m0, e) ==
   LET m == [m0 EXCEPT !.n = @ + 1] IN
-  CASE e.k = "in" /\ e.op = "ts_refresh"   -> Refresh(m, <<e.a, e.key>>, e.ttl)
+  CASE e.k = "in" /\ e.op = "ts_refresh"   -> Refresh(m, <<e.a, e.key>>, e.ttl, "nak" \in DOMAIN e /\ e.nak)
     [] e.k = "in" /\ e.op = "ts_stop"      -> StopSet(m, {<<e.a, e.key>>})
     [] e.k = "in" /\ e.op = "ts_stopaddr"  -> StopSet(m, {k \in Keys(m) : k[1] = e.a})
     [] e.k = "in" /\ e.op = "ts_stopall"   -> StopSet(m, Keys(m))
